@@ -309,7 +309,7 @@ class TabWorld:
             for r in run:
                 row = [float(r[0]), int(r[1])]
                 for j, ty in enumerate(extra_types):
-                    row.append({"int": int(r[1]) * 3 + j, "float": float(r[0]) / 2 + j, "str": f"s{r[1]}_{j}",
+                    row.append({"int": int(r[1]) * 3 + j, "float": float(f"{float(r[0]) / 2 + j:.6f}"), "str": f"s{r[1]}_{j}",
                                 "bool": bool(int(r[1]) % 2)}[ty])
                 rows.append(row)
             rows.sort(key=lambda x: -x[0] if descending else x[0])
